@@ -56,6 +56,9 @@ func (p c02) Gen(c *run.Ctx, idx int) (json.RawMessage, error) {
 	if uidx%6 == 4 {
 		cu, err = universe(c.Seed, "odd", uidx, oddNamesProfile)
 	}
+	if uidx%6 == 3 {
+		cu, err = universe(c.Seed, "abslist", uidx, abstractListProfile)
+	}
 	if err != nil {
 		return nil, err
 	}
